@@ -10,5 +10,6 @@ if [ -d harness/extract ]; then
   (cd harness && go1.26 build -o ../build/extract ./extract)
   for f in $(cat facts.list 2>/dev/null); do ./build/extract -repo /repo -fact "$f" -out "lean/Interceptor/Gen/$f.lean"; done
 fi
+python3 genroot.py
 (cd lean && lake build Interceptor driver)
 echo setup ok
